@@ -234,7 +234,10 @@ def fully_valid(start):
 
 def run_history(ops, start=None):
     """Returns (steps, problems, initial observation); a problem of the starting record itself is reported at step -1."""
-    rec = start_record(start)
+    try:
+        rec = start_record(start)
+    except Exception as e:  # noqa: the line is refused (e.g. a repeated column name): there is no record to keep coherent
+        return [], [], {"refused": exc_name(e)}
     oids = {}
     offset = len(prefix_ops(start))
     for i, c in enumerate(rec._MafRecord__columns_list):
@@ -310,6 +313,8 @@ def gen_start(rng):
     if rng.random() < 0.75:
         names = PARSED_NAMES[:rng.randrange(1, 6)]
         rng.shuffle(names)
+        if len(names) >= 2 and rng.random() < 0.2:
+            names[rng.randrange(len(names))] = names[0]          # a repeated column name
         return {"names": names, "line": "\t".join(rng.choice(["", "", "x", "0", "v w"]) for _ in names)}, NAMES, None
     from .. import sortcases as SC
     ann = "gdc-1.0.0"
